@@ -751,11 +751,12 @@ Proof.
     rewrite Hed. discriminate.
 Qed.
 
-(* DI only reads bases, check bytes and the length of the array *)
-Lemma DI_ext a a' h idmap stack proc : ba_len a' = ba_len a -> (forall j, bs a' j = bs a j /\ ck a' j = ck a j) ->
+(* DI only reads the bases, the length, and the check bytes of occupied slots and of closed blocks *)
+Lemma DI_ext a a' h idmap stack proc : ba_len a' = ba_len a -> (forall j, bs a' j = bs a j) ->
+  (forall j, occ idmap j \/ j / 256 < active_block_start h -> ck a' j = ck a j) ->
   DI a h idmap stack proc -> DI a' h idmap stack proc.
 Proof.
-  intros L Hs D. assert (Hb : forall j, bs a' j = bs a j) by (intros j; apply Hs). assert (Hc : forall j, ck a' j = ck a j) by (intros j; apply Hs).
+  intros L Hb Hc D.
   constructor.
   - exact (di_hw _ _ _ _ _ D).
   - rewrite L. exact (di_cp _ _ _ _ _ D).
@@ -770,11 +771,294 @@ Proof.
   - exact (di_ui _ _ _ _ _ D).
   - intros b Ab. rewrite (di_ub _ _ _ _ _ D b Ab). split; intros (s & i & A & B & C & E); exists s, i; rewrite ?Hb in *; auto.
   - intros s i Hs' Hi. rewrite Hb, L. destruct (di_arr _ _ _ _ _ D s i Hs' Hi) as [A0 A1]. split; [exact A0|]. intros Hne.
-    destruct (A1 Hne) as (X1 & X2 & X3). split; [exact X1|]. split; [exact X2|]. intros c ch Hin. rewrite Hc. exact (X3 c ch Hin).
+    destruct (A1 Hne) as (X1 & X2 & X3). split; [exact X1|]. split; [exact X2|]. intros c ch Hin. destruct (X3 c ch Hin) as [Y1 Y2].
+    split; [exact Y1|]. rewrite Hc; [exact Y2|]. left. exists ch. split; [|exact Y1].
+    assert (Ns : node s) by (apply (di_node _ _ _ _ _ D); apply in_app_iff; left; exact Hs').
+    apply (edges_child s c ch Ns) in Hin. exact (proj1 (proj2 (child_node s c ch Ns Hin))).
   - intros s i Hs' Hi. rewrite Hb. exact (di_arr_stack _ _ _ _ _ D s i Hs' Hi).
-  - intros B HB j Hj Hno s i Hs' Hi. rewrite Hb, Hc. exact (di_sealed _ _ _ _ _ D B HB j Hj Hno s i Hs' Hi).
+  - intros B HB j Hj Hno s i Hs' Hi. rewrite Hb, Hc by (right; lia). exact (di_sealed _ _ _ _ _ D B HB j Hj Hno s i Hs' Hi).
   - intros j Hj. rewrite Hb. exact (di_vac _ _ _ _ _ D j Hj).
   - intros s1 s2 i1 i2 H1 H2 I1 I2. rewrite !Hb. exact (di_binj _ _ _ _ _ D s1 s2 i1 i2 H1 H2 I1 I2).
+Qed.
+
+
+(* ---- the final remove_invalid_checks pass ------------------------------------------------------- *)
+Lemma ric_seals a h idmap stack proc B a' : DI a h idmap stack proc -> remove_invalid_checks a h B = Ok a' ->
+  active_block_start h <= B ->
+  ba_len a' = ba_len a
+  /\ (forall j, b_base (slot a' j) = b_base (slot a j) /\ b_fail (slot a' j) = b_fail (slot a j) /\ b_outpos (slot a' j) = b_outpos (slot a j))
+  /\ (forall j, j / 256 <> B -> ck a' j = ck a j)
+  /\ (forall j, occ idmap j -> ck a' j = ck a j)
+  /\ Sealed a' idmap proc B.
+Proof.
+  intros D E HB. pose proof (di_hw _ _ _ _ _ D) as W.
+  destruct (remove_invalid_checks_spec a h _ a' W E) as (L & S & K & Cs).
+  split; [exact L|]. split; [exact S|]. split; [exact K|].
+  assert (Hocc_ui : forall j, rootdead j = false -> act h j -> ui h j = true -> occ idmap j).
+  { intros j Hrd Aj Uj. apply (di_ui _ _ _ _ _ D j Aj) in Uj as [->|[->|[s Hs]]]; [discriminate|discriminate|].
+    exists s. split; [|exact Hs]. intros ->. rewrite (di_im_root _ _ _ _ _ D) in Hs. inversion Hs; subst j. discriminate. }
+  destruct Cs as [(u & Hu & Au & Uu & Cu)|[-> Cfull]].
+  - split.
+    + intros j (s & Hsr & Hs). destruct (N.eq_dec (j / 256) B) as [Hj|Hj]; [|exact (K j Hj)].
+      specialize (Cu j Hj). destruct (di_im_rng _ _ _ _ _ D s j Hs) as [_ Hr]. specialize (Hr Hsr).
+      assert (rootdead j = false) as Er by (unfold rootdead, ROOT, DEAD; lia). rewrite Er in Cu. destruct Cu as [Aj Cu].
+      assert (ui h j = true) as Eu by (apply (di_ui _ _ _ _ _ D j Aj); right; right; eauto). rewrite Eu in Cu. exact Cu.
+    + intros j Hj Hno s i Hs Hi Hb Hx. specialize (Cu j Hj).
+      assert (Hck : ck a' j = N.lxor u j).
+      { destruct (rootdead j) eqn:Er; [exact Cu|]. destruct Cu as [Aj Cu]. destruct (ui h j) eqn:Eu; [|exact Cu].
+        exfalso. apply Hno. exact (Hocc_ui j Er Aj Eu). }
+      rewrite Hck in Hx. destruct (S i) as (Sb & _). fold (bs a' i) (bs a i) in Sb. rewrite Sb in Hx, Hb.
+      assert (bs a i = u).
+      { apply (f_equal (fun x => N.lxor x j)) in Hx. rewrite N.lxor_nilpotent in Hx.
+        rewrite N.lxor_assoc, N.lxor_assoc, N.lxor_nilpotent, N.lxor_0_r in Hx. apply N.lxor_eq in Hx. exact Hx. }
+      assert (ub h u = true); [|congruence]. apply (di_ub _ _ _ _ _ D u Au). exists s, i. repeat split; try assumption. congruence.
+  - split; [auto|]. intros j Hj Hno. exfalso. apply Hno. exact (full_block_occupied a h idmap stack proc _ D Cfull j Hj).
+Qed.
+
+Lemma Sealed_ext a a' idmap proc B : (forall j, bs a' j = bs a j) -> (forall j, j / 256 = B -> ck a' j = ck a j) ->
+  Sealed a idmap proc B -> Sealed a' idmap proc B.
+Proof. intros Hb Hc H j Hj Hno s i Hs Hi. rewrite Hb, (Hc j Hj). exact (H j Hj Hno s i Hs Hi). Qed.
+
+Lemma ric_blocks_seals : forall bl a h idmap stack proc a', DI a h idmap stack proc ->
+  (forall B, In B bl -> active_block_start h <= B) ->
+  ric_blocks a h bl = Ok a' ->
+  DI a' h idmap stack proc
+  /\ (forall j, b_base (slot a' j) = b_base (slot a j) /\ b_fail (slot a' j) = b_fail (slot a j) /\ b_outpos (slot a' j) = b_outpos (slot a j))
+  /\ (forall j, occ idmap j -> ck a' j = ck a j)
+  /\ (forall B, In B bl -> Sealed a' idmap proc B).
+Proof.
+  induction bl as [|B bl IH]; intros a h idmap stack proc a' D Hbl H; cbn [ric_blocks] in H.
+  - inversion H; subst. split; [exact D|]. split; [auto|]. split; [auto|intros B []].
+  - bstep H. destruct (ric_seals a h idmap stack proc B a0 D E (Hbl B (or_introl eq_refl))) as (L & S & K & KO & Se).
+    assert (D1 : DI a0 h idmap stack proc).
+    { apply (DI_ext a a0); [exact L|intros j; exact (proj1 (S j))| |exact D]. intros j [Ho|Hc]; [exact (KO j Ho)|].
+      apply K. pose proof (Hbl B (or_introl eq_refl)). lia. }
+    destruct (IH a0 h idmap stack proc a' D1 (fun B' HB' => Hbl B' (or_intror HB')) H) as (D2 & S2 & KO2 & Se2).
+    split; [exact D2|]. split; [|split].
+    + intros j. destruct (S2 j) as (X1 & X2 & X3). destruct (S j) as (Y1 & Y2 & Y3). repeat split; congruence.
+    + intros j Ho. rewrite (KO2 j Ho). exact (KO j Ho).
+    + intros B' [<-|HB']; [|exact (Se2 B' HB')].
+      destruct (in_dec N.eq_dec B bl) as [Hin|Hnin]; [exact (Se2 B Hin)|].
+      (* later passes touch other blocks only *)
+      assert (Hlater : forall bl0 a1 a2, ~ In B bl0 -> ric_blocks a1 h bl0 = Ok a2 ->
+                (forall j, bs a2 j = bs a1 j) /\ (forall j, j / 256 = B -> ck a2 j = ck a1 j)).
+      { induction bl0 as [|B0 bl0 IH0]; intros a1 a2 Hn Hr; cbn [ric_blocks] in Hr; [inversion Hr; auto|]. bstep Hr.
+        destruct (remove_invalid_checks_spec a1 h B0 a3 (di_hw _ _ _ _ _ D) E0) as (_ & S3 & K3 & _).
+        destruct (IH0 a3 a2 (fun Hx => Hn (or_intror Hx)) Hr) as [X1 X2]. split.
+        - intros j. rewrite X1. exact (proj1 (S3 j)).
+        - intros j Hj. rewrite (X2 j Hj). apply K3. intros E'. apply Hn. left. congruence. }
+      destruct (Hlater bl a0 a' Hnin H) as [X1 X2]. exact (Sealed_ext a0 a' idmap proc B X1 X2 Se).
+Qed.
+
+(* ---- set_fails_loop copies fail links and output positions through the map ------------------- *)
+Definition fmap (idmap : nmap N) (f : N) : N :=
+  if f =? DEAD then DEAD else match nget f idmap with Some x => x | None => DEAD end.
+
+Lemma set_fails_loop_spec idmap : (forall s1 s2 i, nget s1 idmap = Some i -> nget s2 idmap = Some i -> s1 = s2) ->
+  forall ids a a', NoDup ids -> set_fails_loop V n a idmap ids = Ok a' ->
+  ba_len a' = ba_len a /\ (forall j, bs a' j = bs a j /\ ck a' j = ck a j)
+  /\ (forall j, (forall s, In s ids -> s <> DEAD -> nget s idmap <> Some j) ->
+        b_fail (slot a' j) = b_fail (slot a j) /\ b_outpos (slot a' j) = b_outpos (slot a j))
+  /\ (forall s st i, In s ids -> s <> DEAD -> nfa_get V n s = Ok st -> nget s idmap = Some i ->
+        b_fail (slot a' i) = fmap idmap (n_fail st) /\ b_outpos (slot a' i) = n_outpos st).
+Proof.
+  intros Hinj. induction ids as [|s0 ids IH]; intros a a' Hnd H; cbn [set_fails_loop] in H.
+  - inversion H; subst. split; [reflexivity|]. split; [auto|]. split; [auto|]. intros s st i [].
+  - apply NoDup_cons_iff in Hnd as [Hs0 Hnd]. destruct (s0 =? DEAD) eqn:Ed.
+    + apply N.eqb_eq in Ed. destruct (IH a a' Hnd H) as (L & S & U & F). split; [exact L|]. split; [exact S|]. split.
+      * intros j Hj. apply U. intros s Hs. apply Hj. right. exact Hs.
+      * intros s st i [<-|Hs] Hne; [congruence|]. exact (F s st i Hs Hne).
+    + apply N.eqb_neq in Ed. bstep H. destruct (a0 =? DEAD) eqn:Ea; [discriminate|]. bstep H.
+      destruct (U24_MAX <? n_outpos a1); [discriminate|]. bstep H.
+      assert (Hidx : nget s0 idmap = Some a0).
+      { unfold idmap_get in E. destruct (s0 <? n_nstates n); [|discriminate]. destruct (nget s0 idmap) eqn:Eg; inversion E; subst; [reflexivity|].
+        rewrite N.eqb_refl in Ea. discriminate. }
+      destruct (ba_upd_slot _ _ _ _ E1) as (_ & L1 & S1).
+      (* the second write *)
+      assert (Hstep : exists a3, set_fails_loop V n a3 idmap ids = Ok a' /\ ba_len a3 = ba_len a
+                 /\ (forall j, slot a3 j = if j =? a0 then set_bfail (fmap idmap (n_fail a1)) (set_outpos (n_outpos a1) (slot a a0)) else slot a j)).
+      { destruct (n_fail a1 =? DEAD) eqn:Ef.
+        - bstep H. exists a3. destruct (ba_upd_slot _ _ _ _ E2) as (_ & L2 & S2). split; [exact H|]. split; [congruence|].
+          intros j. rewrite S2, !S1. unfold fmap. rewrite Ef, N.eqb_refl. destruct (j =? a0); reflexivity.
+        - bstep H. destruct (a3 =? DEAD) eqn:Ea3; [discriminate|]. bstep H. exists a4. destruct (ba_upd_slot _ _ _ _ E3) as (_ & L2 & S2).
+          split; [exact H|]. split; [congruence|]. intros j. rewrite S2, !S1. unfold fmap. rewrite Ef.
+          assert (a3 = match nget (n_fail a1) idmap with Some x => x | None => DEAD end) as ->.
+          { unfold idmap_get in E2. destruct (n_fail a1 <? n_nstates n); [|discriminate]. inversion E2. reflexivity. }
+          rewrite N.eqb_refl. destruct (j =? a0); reflexivity. }
+      destruct Hstep as (a3 & H3 & L3 & S3). destruct (IH a3 a' Hnd H3) as (L & S & U & F).
+      assert (Hfields : forall j, bs a3 j = bs a j /\ ck a3 j = ck a j).
+      { intros j. unfold bs, ck. rewrite S3. destruct (j =? a0) eqn:Ej; [|auto]. apply N.eqb_eq in Ej. subst j.
+        unfold set_bfail, set_outpos, b_check. cbn [b_base b_opos_ch]. rewrite pk_b_set_a. auto. }
+      split; [congruence|]. split; [|split].
+      * intros j. destruct (S j) as [X1 X2]. destruct (Hfields j) as [Y1 Y2]. split; congruence.
+      * intros j Hj. destruct (U j (fun s Hs => Hj s (or_intror Hs))) as [X1 X2]. rewrite X1, X2, S3.
+        assert ((j =? a0) = false) as ->; [|auto]. apply N.eqb_neq. intros ->. exact (Hj s0 (or_introl eq_refl) Ed Hidx).
+      * intros s st i [<-|Hs] Hne Hg Hi.
+        -- rewrite Hidx in Hi. inversion Hi; subst i. rewrite E0 in Hg. inversion Hg; subst st.
+           destruct (U a0) as [X1 X2].
+           { intros s Hs Hsd Hx. rewrite (Hinj s s0 a0 Hx Hidx) in Hs. contradiction. }
+           rewrite X1, X2, S3, N.eqb_refl. unfold set_bfail, set_outpos, b_outpos. cbn [b_fail b_opos_ch]. rewrite pk_a_set_a. auto.
+        -- exact (F s st i Hs Hne Hg Hi).
+Qed.
+
+(* ---- init_array ------------------------------------------------------------------------------- *)
+Lemma init_array_DI nfb aa hh : init_array nfb = Ok (aa, hh) -> DI aa hh (nset ROOT ROOT nempty) [ROOT] [].
+Proof.
+  unfold init_array, helper_new. intros H.
+  destruct (U32_MAX <? BLOCK_LEN * nfb); [discriminate|]. destruct (BLOCK_LEN * nfb =? 0) eqn:Ez; [discriminate|]. cbn [bind] in H.
+  set (hh0 := {| h_items := nempty; h_cap := BLOCK_LEN * nfb; h_block_len := BLOCK_LEN; h_nfb := nfb; h_nblocks := 0; h_head := None |}) in *.
+  destruct (push_block hh0) as [a0| | | |] eqn:Ep; cbn [bind] in H; try discriminate.
+  destruct (use_index a0 ROOT) as [a1| | | |] eqn:E1; cbn [bind] in H; try discriminate.
+  destruct (use_index a1 DEAD) as [a2| | | |] eqn:E2; cbn [bind] in H; try discriminate.
+  inversion H; subst aa hh; clear H.
+  assert (W0 : HW hh0) by (unfold HW, hh0, BLOCK_LEN in *; cbn; split; [reflexivity|split; [reflexivity|lia]]).
+  destruct (push_block_fl hh0 a0 W0 Ep) as (W1 & Nb1 & F1). cbn [h_nblocks hh0] in Nb1.
+  destruct (use_index_fl a0 ROOT a1 W1 E1) as (_ & _ & M2 & F2). pose proof (HW_meta _ _ W1 M2) as W2.
+  destruct (use_index_fl a1 DEAD a2 W2 E2) as (_ & _ & M3 & F3). pose proof (HW_meta _ _ W2 M3) as W3.
+  assert (M13 : hmeta a0 a2) by exact (hmeta_trans _ _ _ M2 M3).
+  assert (Hact : forall j, act a2 j <-> j < 256).
+  { intros j. rewrite (act_meta a0 a2 j M13). unfold act, active_index_start, active_index_end, active_block_start.
+    destruct W1 as (B1 & C1 & D1). rewrite B1, Nb1. replace (0 + 1 - h_nfb a0) with 0 by lia. lia. }
+  assert (Hflags : forall j, j < 256 -> ui a2 j = ((j =? DEAD) || ((j =? ROOT) || false)) /\ ub a2 j = false).
+  { intros j Hj. assert (A0 : act a0 j) by (apply (act_meta a0 a2 j M13); apply Hact; exact Hj).
+    destruct (F1 j A0) as [Fn _]. destruct (Fn ltac:(unfold active_index_end, hh0; cbn; lia)) as [U1 B1].
+    destruct (F2 j A0) as [U2 B2]. destruct (F3 j (proj2 (act_meta a0 a1 j M2) A0)) as [U3 B3].
+    rewrite U3, B3, U2, B2, U1, B1. auto. }
+  assert (Him : forall s i, nget s (nset ROOT ROOT nempty) = Some i <-> s = ROOT /\ i = ROOT).
+  { intros s i. destruct (N.eq_dec s ROOT) as [->|Hne].
+    - rewrite ngss. split; [intros E; inversion E; auto|intros [_ ->]; reflexivity].
+    - rewrite ngso by exact Hne. rewrite nget_empty. split; [discriminate|intros [? _]; contradiction]. }
+  assert (Hbs0 : forall j, bs {| ba_map := nempty; ba_len := BLOCK_LEN |} j = 0).
+  { intros j. unfold bs, slot. cbn [ba_map]. rewrite nget_empty. reflexivity. }
+  constructor.
+  - exact W3.
+  - cbn [ba_len]. destruct M13 as (_ & _ & _ & ->). rewrite Nb1. reflexivity.
+  - cbn [app]. constructor; [intros []|constructor].
+  - intros t [<-|[]]. exists []. reflexivity.
+  - intros t [<-|[]] Hr. congruence.
+  - intros s c t [].
+  - intros s. cbn [app In]. split; [intros [i Hi]; apply Him in Hi as [-> _]; auto|intros [<-|[]]; exists ROOT; apply Him; auto].
+  - apply Him. auto.
+  - intros s1 s2 i H1 H2. apply Him in H1 as [-> _]. apply Him in H2 as [-> _]. reflexivity.
+  - intros s i Hi. apply Him in Hi as [-> ->]. cbn [ba_len]. unfold ROOT, BLOCK_LEN. split; [lia|congruence].
+  - intros i Ai. apply Hact in Ai. destruct (Hflags i Ai) as [-> _]. unfold ROOT, DEAD. split.
+    + intros Hx. destruct (i =? 1) eqn:E1'; [right; left; lia|]. destruct (i =? 0) eqn:E0'; [left; lia|discriminate].
+    + intros [->|[->|[s Hs]]]; [reflexivity|reflexivity|]. apply Him in Hs as [_ ->]. reflexivity.
+  - intros b Ab. apply Hact in Ab. destruct (Hflags b Ab) as [_ ->]. split; [discriminate|]. intros (s & i & [] & _).
+  - intros s i [].
+  - intros s i _ _. apply Hbs0.
+  - intros B HB. exfalso. unfold active_block_start in HB. destruct M13 as (_ & _ & E3 & E4). rewrite E3, E4, Nb1 in HB.
+    destruct W1 as (_ & _ & D1). lia.
+  - intros j _. apply Hbs0.
+  - intros s1 s2 i1 i2 [].
+Qed.
+
+(* ---- the result: the double array is an isomorphic copy of the NFA ----------------------------- *)
+Lemma nseq_nth : forall k a i, (i < k)%nat -> nth_error (nseq a k) i = Some (a + N.of_nat i).
+Proof.
+  induction k as [|k IH]; intros a i Hi; [lia|]. cbn [nseq]. destruct i as [|i]; [cbn; f_equal; lia|].
+  cbn [nth_error]. rewrite IH by lia. f_equal. lia.
+Qed.
+
+Lemma barr_to_list_nth a j : j < ba_len a -> nth_error (barr_to_list a) (N.to_nat j) = Some (slot a j).
+Proof.
+  intros Hj. unfold barr_to_list. rewrite nth_error_map, nseq_nth by lia. cbn [option_map]. unfold slot. replace (0 + N.of_nat (N.to_nat j)) with j by lia. reflexivity.
+Qed.
+
+Record Refines (sts : list bstate) (idmap : nmap N) : Prop := {
+  rf_root : nget ROOT idmap = Some ROOT;
+  rf_tot : forall s, node s -> exists i, nget s idmap = Some i /\ i < N.of_nat (length sts) /\ (s <> ROOT -> 2 <= i);
+  rf_inj : forall s1 s2 i, nget s1 idmap = Some i -> nget s2 idmap = Some i -> s1 = s2;
+  rf_child : forall s i c, node s -> nget s idmap = Some i -> c < 256 ->
+    bw_child (fun j => nth_error sts (N.to_nat j)) i c
+    = Ok (match tchild V n s c with Some t => nget t idmap | None => None end);
+  rf_links : forall s st i, node s -> s <> DEAD -> nfa_get V n s = Ok st -> nget s idmap = Some i ->
+    exists sl, nth_error sts (N.to_nat i) = Some sl /\ b_fail sl = fmap idmap (n_fail st) /\ b_outpos sl = n_outpos st
+}.
+
+(* occupancy is decidable: the placed states are a list *)
+Lemma occ_dec_list idmap (pl : list N) (j : N) : (forall s, (exists i, nget s idmap = Some i) -> In s pl) ->
+  occ idmap j \/ ~ occ idmap j.
+Proof.
+  intros Hpl. assert (Hd : forall l, (exists s, In s l /\ s <> ROOT /\ nget s idmap = Some j) \/ ~ (exists s, In s l /\ s <> ROOT /\ nget s idmap = Some j)).
+  { induction l as [|x l IH]; [right; intros (s & [] & _)|]. destruct IH as [(s & A & B & C)|IH]; [left; exists s; split; [right; exact A|auto]|].
+    destruct (N.eq_dec x ROOT) as [->|Hx]; [right; intros (s & [<-|A] & B & C); [congruence|apply IH; eauto]|].
+    destruct (nget x idmap) as [i|] eqn:E.
+    - destruct (N.eq_dec i j) as [->|Hij]; [left; exists x; split; [left; reflexivity|auto]|].
+      right. intros (s & [<-|A] & B & C); [congruence|apply IH; eauto].
+    - right. intros (s & [<-|A] & B & C); [congruence|apply IH; eauto]. }
+  destruct (Hd pl) as [(s & A & B & C)|Hn]; [left; exists s; auto|right]. intros (s & B & C). apply Hn. exists s. split; [apply Hpl; eauto|auto].
+Qed.
+
+Hypothesis root_node : node ROOT.
+Hypothesis nstates_nodes : forall s, s < n_nstates n -> s <> DEAD -> node s.
+Hypothesis dead_not_node : ~ node DEAD.
+
+Theorem build_double_array_refines nfb sts : build_double_array V nfb n = Ok sts -> exists idmap, Refines sts idmap.
+Proof.
+  intros H. unfold build_double_array in H.
+  destruct (init_array nfb) as [[a0 h0]| | | |] eqn:Ei; cbn [bind] in H; try discriminate.
+  destruct (dfs_loop V _ n a0 h0 _ _) as [[[a1 h1] idmap]| | | |] eqn:Ed; cbn [bind] in H; try discriminate.
+  destruct (set_fails_loop V n a1 idmap _) as [a2| | | |] eqn:Es; cbn [bind] in H; try discriminate.
+  destruct (ric_blocks a2 h1 _) as [a3| | | |] eqn:Er; cbn [bind] in H; try discriminate.
+  inversion H; subst sts; clear H. exists idmap.
+  destruct (dfs_loop_DI _ _ _ _ _ _ _ _ _ (init_array_DI nfb a0 h0 Ei) Ed) as [proc D1].
+  destruct (set_fails_loop_spec idmap (di_im_inj _ _ _ _ _ D1) _ a1 a2 (nseq_nodup' _ _) Es) as (L2 & S2 & _ & F2).
+  assert (D2 : DI a2 h1 idmap [] proc).
+  { apply (DI_ext a1 a2); [exact L2|intros j; exact (proj1 (S2 j))|intros j _; exact (proj2 (S2 j))|exact D1]. }
+  assert (Hblk : forall B, In B (nseq (active_block_start h1) (N.to_nat (h_nblocks h1 - active_block_start h1))) -> active_block_start h1 <= B)
+    by (intros B HB; apply nseq_in' in HB; lia).
+  destruct (ric_blocks_seals _ a2 h1 idmap [] proc a3 D2 Hblk Er) as (D3 & S3 & KO3 & Se3).
+  pose proof (di_hw _ _ _ _ _ D3) as W. pose proof (di_cp _ _ _ _ _ D3) as Hcp.
+  assert (Hlen : N.of_nat (length (barr_to_list a3)) = ba_len a3).
+  { unfold barr_to_list. rewrite map_length. assert (forall k a, length (nseq a k) = k) as Hl by (induction k; intros; cbn; auto). rewrite Hl. lia. }
+  assert (Hplaced : forall s, node s -> In s proc).
+  { intros s [w Hw]. revert s Hw. induction w as [|c w IHw] using rev_ind; intros s Hw.
+    - cbn in Hw. inversion Hw; subst s. pose proof (di_im _ _ _ _ _ D3 ROOT) as Hx. rewrite app_nil_r in Hx. apply Hx. exists ROOT. exact (di_im_root _ _ _ _ _ D3).
+    - rewrite twalk_snoc in Hw. destruct (twalk V n ROOT w) as [p|] eqn:Ep; [|discriminate].
+      pose proof (di_chi _ _ _ _ _ D3 p c s (IHw p eq_refl) Hw) as Hx. rewrite app_nil_r in Hx. exact Hx. }
+  assert (Hsealed : forall B, B < h_nblocks h1 -> Sealed a3 idmap proc B).
+  { intros B HB. destruct (N.lt_ge_cases B (active_block_start h1)) as [Hc|Hc]; [exact (di_sealed _ _ _ _ _ D3 B Hc)|].
+    apply Se3. apply nseq_in'. lia. }
+  assert (Hidx : forall s, In s proc -> exists i, nget s idmap = Some i).
+  { intros s Hs. apply (di_im _ _ _ _ _ D3). rewrite app_nil_r. exact Hs. }
+  constructor.
+  - exact (di_im_root _ _ _ _ _ D3).
+  - intros s Ns. destruct (Hidx s (Hplaced s Ns)) as [i Hi]. exists i. split; [exact Hi|]. rewrite Hlen. exact (di_im_rng _ _ _ _ _ D3 s i Hi).
+  - exact (di_im_inj _ _ _ _ _ D3).
+  - (* children *)
+    intros s i c Ns Hi Hc. pose proof (Hplaced s Ns) as Hs.
+    destruct (di_im_rng _ _ _ _ _ D3 s i Hi) as [Hil _].
+    unfold bw_child, st_at. rewrite (barr_to_list_nth a3 i Hil). cbn [bind]. fold (bs a3 i).
+    destruct (di_arr _ _ _ _ _ D3 s i Hs Hi) as [A0 A1].
+    destruct (edges_of s) as [|e0 es0] eqn:Ee.
+    + rewrite (A0 eq_refl). cbn. destruct (tchild V n s c) as [t|] eqn:Et; [|reflexivity].
+      apply (edges_child s c t Ns) in Et. rewrite Ee in Et. destruct Et.
+    + destruct (A1 ltac:(discriminate)) as (Hbz & Hbl & Hch). assert ((bs a3 i =? 0) = false) as -> by (apply N.eqb_neq; exact Hbz).
+      set (j := N.lxor (bs a3 i) c).
+      assert (Hjl : j < ba_len a3).
+      { assert (Hd : j / 256 = bs a3 i / 256) by (apply xor_div; exact Hc).
+        assert (bs a3 i / 256 < h_nblocks h1) by (apply N.div_lt_upper_bound; [discriminate|lia]).
+        pose proof (N.div_mod j 256 ltac:(discriminate)). pose proof (N.mod_lt j 256 ltac:(discriminate)). nia. }
+      rewrite (barr_to_list_nth a3 j Hjl). cbn [bind]. fold (ck a3 j).
+      destruct (tchild V n s c) as [t|] eqn:Et.
+      * apply (edges_child s c t Ns) in Et. rewrite <- Ee in Hch. destruct (Hch c t Et) as [Y1 Y2]. fold j in Y1, Y2.
+        rewrite Y2, N.eqb_refl, Y1. reflexivity.
+      * destruct (ck a3 j =? c) eqn:Eck; [|reflexivity]. exfalso. apply N.eqb_eq in Eck.
+        destruct (occ_dec_list idmap proc j ltac:(intros s0 Hs0; pose proof (di_im _ _ _ _ _ D3 s0) as Hx; rewrite app_nil_r in Hx; apply Hx; exact Hs0)) as [(t & Htr & Ht)|Hno].
+        -- assert (Htp : In t proc) by (pose proof (di_im _ _ _ _ _ D3 t) as Hx; rewrite app_nil_r in Hx; apply Hx; eauto).
+           destruct (di_par _ _ _ _ _ D3 t ltac:(rewrite app_nil_r; exact Htp) Htr) as (p & c' & Hp & Hc').
+           destruct (Hidx p Hp) as [ip Hip]. destruct (di_arr _ _ _ _ _ D3 p ip Hp Hip) as [_ B1].
+           assert (Np : node p) by (apply (di_node _ _ _ _ _ D3); rewrite app_nil_r; exact Hp).
+           pose proof (proj2 (edges_child p c' t Np) Hc') as Hin.
+           destruct (B1 ltac:(intros E0; rewrite E0 in Hin; destruct Hin)) as (Bz & _ & Bch). destruct (Bch c' t Hin) as [Z1 Z2].
+           rewrite Ht in Z1. inversion Z1 as [Ej]. rewrite <- Ej in Z2. rewrite Eck in Z2. subst c'.
+           unfold j in Ej. apply (f_equal (fun x => N.lxor x c)) in Ej. rewrite !lxor_cancel_r in Ej.
+           assert (p = s) by (apply (di_binj _ _ _ _ _ D3 p s ip i Hp Hs Hip Hi); [symmetry; exact Ej|exact Bz]). subst p. congruence.
+        -- apply (Hsealed (j / 256) ltac:(apply N.div_lt_upper_bound; [discriminate|lia]) j eq_refl Hno s i Hs Hi Hbz). rewrite Eck. reflexivity.
+  - (* fail links and output positions *)
+    intros s st i Ns Hd Hg Hi. destruct (di_im_rng _ _ _ _ _ D3 s i Hi) as [Hil _]. exists (slot a3 i). split; [exact (barr_to_list_nth a3 i Hil)|].
+    destruct (S3 i) as (_ & X2 & X3). rewrite X2, X3. apply (F2 s st i); try assumption. apply nseq_in'. pose proof (node_lt s Ns). lia.
 Qed.
 
 End Refine.
